@@ -47,7 +47,7 @@ META = {
     'probe_names': ['crash_between_truncate_and_write', 'crash_mid_write', 'crash_in_readback', 'crash_in_render',
                     'crash_before_paux', 'crash_after_save', 'loads_to_nondict', 'dict_without_renderer', 'edited_owner',
                     'healed_after_fault', 'cross_ref_resolved', 'other_block_preserved', 'xr_reader_used',
-                    'corrupt_file_read', 'save_failed_run_continued', 'ioerr_open_r', 'ioerr_write', 'ioerr_open_w'],
+                    'corrupt_file_read', 'partial_restore_after_bad_entry', 'save_failed_run_continued', 'ioerr_open_r', 'ioerr_write', 'ioerr_open_w'],
     'shrink_budget': 60,
     'enum_batch': {'quick': 6, 'thorough': 12},
 }
@@ -95,6 +95,9 @@ def doc_source(i, st, m, use_xr, fancy_names=False):
             deco = ['', ' caf\\\'e \\textbf{bold}', ' $x^2$ math', ' na\u00efve \u00fc', ' a \\& b'][(k + ver) % 5] if st.get('fancy') else ''
             lines.append('\\section{T%dx%dv%d%s}\\label{%s}' % (i, k, ver, deco, lab))
             lines.append('Body b%dx%d.' % (i, k))
+        elif kind == 'starsection':
+            lines.append('\\section*{S%dx%dv%d}\\label{%s}' % (i, k, ver, lab))
+            lines.append('Body s%dx%d.' % (i, k))
         elif kind == 'emptysection':
             lines.append('\\section{}\\label{%s}' % lab)
             lines.append('Body b%dx%d v%d.' % (i, k, ver))
@@ -118,6 +121,9 @@ def expected_numbers(st):
         if kind == 'item':
             out[k] = ('1', ver, kind)           # every generated item is the first of its own list
             continue
+        if kind == 'starsection':
+            out[k] = (None, ver, kind)          # unnumbered: there is no number to save
+            continue
         c = 'section' if kind in ('section', 'emptysection') else kind
         n[c] += 1
         out[k] = (str(n[c]), ver, kind)
@@ -138,7 +144,7 @@ def generate(seed, tier):
     for i in range(m):
         items = []
         for k in range(r.randint(1, 4)):
-            items.append([r.choice(['section', 'section', 'equation', 'section', 'equation', 'figure', 'item', 'emptysection']), k, 0])
+            items.append([r.choice(['section', 'section', 'equation', 'section', 'equation', 'figure', 'item', 'emptysection', 'starsection']), k, 0])
         docs.append({'items': items, 'refs': [], 'next': len(items), 'fancy': r.random() < 0.4})
     for i in range(m):
         for j in range(m):
@@ -148,7 +154,7 @@ def generate(seed, tier):
                         docs[i]['refs'].append([j, it[1]])
     rf = R('faults')
     kinds = ['crash', 'ioerr', 'truncate', 'bitflip', 'zerotail', 'empty', 'delete', 'foreign-renderer',
-             'foreign-shape', 'not-a-pickle', 'edit']
+             'foreign-shape', 'not-a-pickle', 'bad-entry', 'edit']
     enabled = [k for k in kinds if rf.random() < 0.66] or ['crash']
     fault_free = rf.random() < 0.12          # separate fault-free population
     use_xr = r.choice(['plain', 'plain', 'prefix', 'url', 'both']) if (r.random() < 0.35 and all(x in ('HTML5', 'XHTML') for x in rends)) else False
@@ -186,7 +192,7 @@ def generate(seed, tier):
             if rf.random() < 0.7:       # a corruption is only a fault once somebody reads the file
                 ops.append({'op': 'RUN', 'doc': ro.randrange(8), 'r': ro.randrange(2)})
     return {'property': PID, 'seed': seed,
-            'swarm': {'m': m, 'renderers': rends, 'docs': docs, 'xr': use_xr, 'enabled': enabled, 'fancy_names': r.random() < 0.3,
+            'swarm': {'m': m, 'renderers': rends, 'docs': docs, 'xr': use_xr, 'enabled': enabled, 'fancy_names': r.random() < 0.3, 'base_url': r.choice(['', '', '', 'http://base.example/docs', 'http://b.example/x/']),
                       'fault_free': fault_free},
             'ops': ops}
 
@@ -260,7 +266,10 @@ def job(args, fs):
     plasTeX.Compile.parse = parse
     plasTeX.Compile.run.__globals__['parse'] = parse
     Context.persist = persist
-    argv = ['--renderer', args['renderer'], '--imager', 'none', '--vector-imager', 'none', args['file']]
+    argv = ['--renderer', args['renderer'], '--imager', 'none', '--vector-imager', 'none']
+    if args.get('base_url'):
+        argv += ['--base-url', args['base_url']]
+    argv.append(args['file'])
     plasTeX.client.main(argv)
     return obs
 
@@ -460,7 +469,7 @@ class Sim(object):
     def lifetime(self, i, R, crash=None):
         setup = {'root': self.root, 'cwd': self.root, 'clock': self.clock, 'crash': crash,
                  'env': {'environ': {'HOME': self.root, 'TEXINPUTS': self.root}}}
-        return lifetimes.run_lifetime(JOB, {'file': self.jn(i) + '.tex', 'renderer': R}, setup, timeout=600)
+        return lifetimes.run_lifetime(JOB, {'file': self.jn(i) + '.tex', 'renderer': R, 'base_url': self.rec['swarm'].get('base_url', '')}, setup, timeout=600)
 
     # -- ops
     def run(self, ops):
@@ -539,6 +548,22 @@ class Sim(object):
             for pos, bit in op.get('bits', [[0, 0]]):
                 b[pos % len(b)] ^= (1 << (bit % 8))
             new = bytes(b)
+        elif kind == 'bad-entry':
+            # a damaged file that still unpickles: ONE unusable entry slipped into otherwise good blocks
+            try:
+                d = pickle.loads(data)
+            except Exception:
+                return
+            if not isinstance(d, dict):
+                return
+            junk = [('zz0', 'notadict'), (7, {'ref': '1'}), ('zz2', None), ('zz3', {'macroName': 'nosuchmacro%d' % k, 'ref': 5}),
+                    ('zz4', {'macroName': 7})][op['pos'] % 5]
+            for R2 in list(d):
+                if isinstance(d[R2], dict):
+                    items = list(d[R2].items())
+                    at = (op['pos'] // 5) % (len(items) + 1)
+                    d[R2] = dict(items[:at] + [junk] + items[at:])
+            new = pickle.dumps(d)
         elif kind == 'foreign-renderer':
             new = pickle.dumps({'SomeOtherRenderer': {'zz': {'macroName': 'section', 'ref': '9', 'id': 'zz',
                                                              'url': 'zz.html', 'title': 'ZZ'}}})
@@ -548,7 +573,11 @@ class Sim(object):
             new = NOT_PICKLES[op.get('payload', 0) % len(NOT_PICKLES)]
         with open(p, 'wb') as f:
             f.write(new)
-        if kind in ('bitflip', 'zerotail'):
+        if kind == 'bad-entry':
+            # the good entries are intact: readers may get any SUBSET of them (a reader may give up at the bad one),
+            # each with unaltered values; the owner's next save must produce a complete file again
+            fm.update(state='dirty', subset=True)
+        elif kind in ('bitflip', 'zerotail'):
             if new != data:
                 fm.update(state='dirty', fuzzy=True)
         elif kind == 'truncate' and new == data:
@@ -774,6 +803,8 @@ class Sim(object):
             kk = int(lab.split('L')[1])
             if kk in exp:
                 num, ver, kind = exp[kk]
+                if num is None:
+                    continue
                 if v['ref'] is None or num not in v['ref']:
                     self.violation('C20|save|number', {'label': lab, 'saved': v, 'expected': num})
                     return
@@ -808,6 +839,12 @@ class Sim(object):
             if fm['fuzzy']:
                 continue        # bit flips: only I1/I5 (no checksum in the format)
             cands = [c.get(R, {}) for c in fm['cands']]
+            if fm.get('subset'):
+                got = dict((lab, v) for lab, v in got.items() if str(lab).startswith('d'))
+                if any(all(c.get(lab) == v for lab, v in got.items()) for c in cands):
+                    if got:
+                        self.info['partial_restore_after_bad_entry'] = 1
+                    continue
             if got not in cands:
                 cls = 'roundtrip' if fm['state'] == 'clean' else 'atworst-absent'
                 self.violation('C20|%s|%s' % (cls, _diffkind(got, cands)),
@@ -817,8 +854,8 @@ class Sim(object):
             if got and fm['state'] == 'clean':
                 self.info['roundtrip_nonempty'] = 1
         if byfile.get('?'):
-            if not any(f['fuzzy'] for f in self.files.values()):
-                self.violation('C20|restore|alien-label', {'labels': sorted(byfile['?'])})
+            if not any(f['fuzzy'] or f.get('subset') for f in self.files.values()):
+                self.violation('C20|restore|alien-label', {'labels': sorted(repr(x) for x in byfile['?'])})
                 return
         # references to other documents' labels resolve to the restored data
         for labattr, target, intree in res['refs'] or []:
@@ -925,12 +962,14 @@ class Sim(object):
                 if R2 != R and isinstance(blk, dict):
                     nb = {}
                     for lab, v in blk.items():
-                        if isinstance(v, dict):
+                        if not _junk_entry(lab, v):
                             nb[lab] = (_s(v.get('ref')), _s(v.get('title')), _s(v.get('url')))
                     newblocks[R2] = nb
         newblocks[R] = want
         fuzzy = fm['fuzzy'] and any(R2 != R for R2 in d)
-        self.files[name] = {'state': 'clean', 'cands': [newblocks], 'fuzzy': False}
+        # junk entries of OTHER renderers' blocks stay on disk until those renderers save again: a reader under such a
+        # renderer may give up at the junk entry and get only a subset of that block
+        self.files[name] = {'state': 'clean', 'cands': [newblocks], 'fuzzy': False, 'subset': has_junk(d)}
         if fuzzy:
             # other renderers' blocks of a bit-flipped file remain unverifiable until they are re-saved
             self.files[name]['fuzzy_blocks'] = [R2 for R2 in d if R2 != R]
@@ -956,6 +995,23 @@ class Sim(object):
                 if R not in fm['cands'][0]:
                     self.violation('C20|recovery|missing-block', {'file': name, 'renderer': R})
                     return
+
+
+def _junk_entry(lab, v):
+    return (not isinstance(lab, str)) or (not lab.startswith('d')) or (not isinstance(v, dict)) \
+        or (not isinstance(v.get('macroName', 'Macro'), str)) or str(v.get('macroName', '')).startswith('nosuch')
+
+
+def has_junk(d):
+    if not isinstance(d, dict):
+        return True
+    for blk in d.values():
+        if not isinstance(blk, dict):
+            return True
+        for lab, v in blk.items():
+            if _junk_entry(lab, v):
+                return True
+    return False
 
 
 def _diffkind(got, cands):
